@@ -100,4 +100,50 @@ def run {V : Type} [DecidableEq V] (valid : Config → Bool) (ver : Config → V
     let (s2, rs) := run valid ver s1 ops
     (s2, r :: rs)
 
+
+/-! ### the API handler: `ConfigHandlerImpl.ApplyConfig` (pkg/gate/api_handlers.go), under `applyMu` -/
+
+/-- connect codes the handler answers with -/
+inductive ApiCode where
+  | ok | invalidArgument | failedPrecondition | internal
+  deriving DecidableEq, Repr
+
+/-- one ApplyConfig request.  `ifMatch = none` is the empty string; `cand = none` means the payload /
+    merge patch could not be turned into a configuration (missing input, undecodable, unknown member);
+    otherwise `cand` is the decoded document, resp. the merge-patched effective configuration. -/
+structure ApiReq (V : Type) where
+  ifMatch : Option V
+  cand : Option Config
+  persist : Bool
+
+/-- the Gate plus the configuration file the handler persists to (`none`: nothing written) -/
+structure ApiState where
+  gate : State
+  file : Option Config
+
+structure ApiResp (V : Type) where
+  code : ApiCode
+  version : Option V
+
+/-- the handler's steps in source order: if_match required; decode / merge; validate; then EVERY candidate
+    — also one equal to the effective configuration — goes through `ApplyLiveConfigIfVersion`, which tests
+    the expected version first; persist only after success. -/
+def apiApply {V : Type} [DecidableEq V] (valid : Config → Bool) (ver : Config → V) (a : ApiState)
+    (req : ApiReq V) : ApiState × ApiResp V :=
+  match req.ifMatch with
+  | none => (a, ⟨.invalidArgument, none⟩)
+  | some e =>
+    match req.cand with
+    | none => (a, ⟨.invalidArgument, none⟩)
+    | some c =>
+      if !valid c then (a, ⟨.invalidArgument, none⟩)
+      else
+        let out := applyIfVersion valid ver a.gate (some c) e
+        match out.2.code with
+        | .applied | .unchanged =>
+          ({ gate := out.1, file := if req.persist then some c else a.file }, ⟨.ok, out.2.version⟩)
+        | .preconditionFailed | .unsupported => ({ a with gate := out.1 }, ⟨.failedPrecondition, none⟩)
+        | .invalid => ({ a with gate := out.1 }, ⟨.invalidArgument, none⟩)
+        | .prepareFailed => ({ a with gate := out.1 }, ⟨.internal, none⟩)
+
 end Gate.C35
